@@ -84,6 +84,13 @@ CLAIMED = {
             "explicit outputs the report must be {} without alteration, and otherwise name the cell with (stored, recomputed) and only dependants of it besides; unevaluable cells are listed.",
             "Bounds: 15 (template, cell, outputs) cases, |d|<=50, tolerance default or int 1..10; the stored-results workbook is two in-memory openpyxl workbooks behind the real ExcelOpxWrapper.",
             "DESIGN.md 4/C12"),
+    "C03": ("model_checking",
+            "CrossHair symbolic execution of original vs reloaded (yml/json/pkl, plain/iterative, kept/fresh module state) models over enumerated histories; concrete fixture self-checks for the file-level clauses",
+            "Solver-decided: the reloaded model reacts to every enumerated set_value/evaluate history exactly as the model that was saved, for all written values in the domain, also when the "
+            "thread-local module state is re-created before loading. Not solver-decidable (ruamel/json/pickle/file I/O have no symbolic path): determinism/idempotence of saving, survival of settings, "
+            "a pool of awkward constants and pickle refresh are concrete fixture self-checks, reported separately in the evidence.",
+            "Bounds: 5 templates (quick), histories of <=2 writes, ints |v|<=99; files are produced before the analysis; one known finding (non-BMP text through json).",
+            "DESIGN.md 4/C03"),
 }
 
 NOT_YET = "check not built yet in this round (machinery under construction); see DESIGN.md section 4"
